@@ -132,7 +132,20 @@ def run(ctx):
             v = du.val_operand(a)
             return v[0] in ("place", "ref") and 1 <= v[1][0] <= fn.nargs and all(p == "*" for p in v[1][1])
         arg_ok = bool(direct) and all(is_param(a) for a in direct[0]["args"])
-        others = [c for c in callees if c != target and REWRITERS.fullmatch(c or "")]
+        # ... nor in a private helper or a closure the wrapper hands its data to (`form_spaces(parse(..))` with the rewrite in a closure)
+        from ..inline import is_private_helper as _iph
+        fam, stack_ = [], [w]
+        seen_ = {w}
+        while stack_:
+            x_ = stack_.pop()
+            for e_ in G.out.get(x_, []):
+                g_ = F.fns.get(e_.dst)
+                if g_ is not None and g_.crate == "rws" and e_.dst not in seen_ and (g_.kind == "Closure" or _iph(F, e_.dst)):
+                    seen_.add(e_.dst)
+                    stack_.append(e_.dst)
+                    fam.append(g_)
+        fam_callees = [callee_name(t_) for g_ in fam for _, t_ in g_.calls()]
+        others = [c for c in callees + fam_callees if c != target and REWRITERS.fullmatch(c or "")]
         ok = len(direct) == 1 and arg_ok and not others
         r5.instance({"wrapper": w, "calls": callees, "argument_passed_unchanged": arg_ok}, ok)
         if not ok:
